@@ -10212,7 +10212,9 @@ class Parser:
         with_ = query.args.get("with_")
         ctes = with_.pop() if with_ else None
 
-        new_select = exp.select(*expressions, copy=False).from_(new_cte, copy=False)
+        new_select = exp.select(*expressions, copy=False).from_(
+            new_cte.copy() if isinstance(new_cte, exp.Expr) else new_cte, copy=False
+        )
         if ctes:
             new_select.set("with_", ctes)
 
@@ -10261,8 +10263,10 @@ class Parser:
         for element in expr:
             if isinstance(element, exp.Ordered):
                 this = element.this
-                if isinstance(this, exp.Alias):
-                    element.set("this", this.args["alias"])
+                # The projection itself goes into the SELECT list, the sort key is its own node
+                element.set(
+                    "this", (this.args["alias"] if isinstance(this, exp.Alias) else this).copy()
+                )
                 orders.append(element)
             else:
                 this = element
@@ -10272,7 +10276,10 @@ class Parser:
             query.select(
                 *aggregates_or_groups, *query.expressions, append=False, copy=False
             ).group_by(
-                *[projection.args.get("alias", projection) for projection in aggregates_or_groups],
+                *[
+                    projection.args.get("alias", projection).copy()
+                    for projection in aggregates_or_groups
+                ],
                 copy=False,
             )
         else:
